@@ -138,6 +138,7 @@ impl Runtime {
 
     fn enter_indirect(&mut self, line: Line) {
         self.cont = State::Stopped;
+        self.stack.clear();
         if line.is_empty() {
             if self.listing.remove(line.number()).is_some() {
                 self.dirty = true;
@@ -624,6 +625,8 @@ impl Runtime {
         if self.listing.remove_range(from..=to) {
             self.dirty = true;
             self.state = State::Stopped;
+            self.cont = State::Stopped;
+            self.stack.clear();
         }
         Ok(self.r#end())
     }
@@ -837,6 +840,8 @@ impl Runtime {
         let new_start = u16::try_from(self.stack.pop()?)?;
         self.listing.renum(new_start, old_start, step)?;
         self.dirty = true;
+        self.cont = State::Stopped;
+        self.stack.clear();
 
         self.state = State::Stopped;
         Ok(self.r#end())
